@@ -182,6 +182,27 @@ def main(tier):
                 if not m:
                     run.count("raw-engine-error")
                     ttxt = text.decode("utf-8", "replace")
+                    # an error raised by the engine itself (invalid encoding, an action's own error) still names a place: the line
+                    # and column it prints are those of the offset it prints, and an encoding error points AT the undecodable byte
+                    mp = re.match(rb"(\d+):(\d+) \((\d+)\): ", text)
+                    if mp and int(mp.group(3)) <= len(d):
+                        pl, pc, po = int(mp.group(1)), int(mp.group(2)), int(mp.group(3))
+                        run.nontriv((d, lang, "raw"))
+                        rep = {"input_hex": d.hex(), "input": d.decode("utf-8", "replace"), "lang": lang, "text": ttxt[:300]}
+                        if (pl, pc) != spec_linecol(d, po):
+                            if d[po:po + 1] == b"\n":
+                                run.known_finding("C19-position-of-newline-rune", dict(rep, clause="engine-error line/col-not-of-offset@newline-rune"))
+                            else:
+                                run.violation("errfmt:engine-error-line/col-not-of-offset",
+                                              dict(rep, detail=f"reported {pl}:{pc}, offset {po} is {spec_linecol(d, po)}"))
+                        if b"invalid encoding" in text.split(b"\n")[0] and count_runes(d[po:po + 4]) == count_runes(d[po + 1:po + 4]) + 1 \
+                                and po < len(d):
+                            try:
+                                d[po:].decode("utf-8")
+                                run.violation("errfmt:encoding-error-not-at-an-undecodable-byte", rep)
+                            except UnicodeDecodeError as e:
+                                if e.start != 0:
+                                    run.violation("errfmt:encoding-error-not-at-an-undecodable-byte", dict(rep, detail=f"first bad byte is {e.start} further"))
                     if (lang == 2 and CN_WORDS.search(ttxt) or re.search(r"[一-鿿]", re.sub(r"rule \S+", "", ttxt)) and lang == 2) or \
                        (lang == 1 and re.search(r"not allowed|invalid encoding|no match", ttxt)):
                         run.known_finding("C19-action-errors-ignore-language", {"input": d.decode("utf-8", "replace"), "lang": lang, "text": ttxt[:200]})
